@@ -106,9 +106,21 @@ def parse_template(path):
     meta = []
     cur = None
     sec = None
-    with open(path) as f:
-        lines = f.read().split("\n")
-    for n, line in enumerate(lines, 1):
+    def load(pth, depth=0):
+        out = []
+        with open(pth) as f:
+            for n, line in enumerate(f.read().split("\n"), 1):
+                m = re.match(r"\s*//@\s*include\s+(\S+)\s*$", line)
+                if m:
+                    if depth > 4:
+                        raise Undecided("include depth")
+                    inc = os.path.normpath(os.path.join(os.path.dirname(pth), m.group(1)))
+                    out.extend(load(inc, depth + 1))
+                else:
+                    tag = n if depth == 0 else f"{os.path.basename(pth)}:{n}"
+                    out.append((tag, line))
+        return out
+    for n, line in load(path):
         s = line.strip()
         if s.startswith("//@|"):
             if cur is None or sec is None:
@@ -134,7 +146,7 @@ def parse_template(path):
                 rest = m.group(2)
                 # path ends at first opt token; opts are known keywords
                 toks = split_opts(rest)
-                optkw = ("ret(", "mono(", "nogenerics", "nowhere", "keepvis", "keepattrs", "desugar(",
+                optkw = ("bound(", "attr(", "ret(", "mono(", "nogenerics", "nowhere", "keepvis", "keepattrs", "desugar(",
                          "trusted", "rename(", "nobody", "novis")
                 ptoks, otoks = [], []
                 for t in toks:
@@ -156,7 +168,7 @@ def parse_template(path):
                     sec = (m.group(1), None, [])
                     cur.sections.append(sec)
                     continue
-                m = re.match(r'(before |after )?loop\s+(\d+)$', d)
+                m = re.match(r'(before |after |in )?loop\s+(\d+)$', d)
                 if m:
                     kind = (m.group(1) or "").strip() + "loop"
                     sec = (kind, int(m.group(2)), [])
@@ -227,9 +239,9 @@ def assemble_item(d, info, src, srcfile_label, log):
     edits = []  # (a, b, replacement or None, kind, order, origin)
     order = [0]
 
-    def add(a, b, rep, kind, origin=None):
+    def add(a, b, rep, kind, origin=None, prio=0):
         order[0] += 1
-        edits.append((a, b, rep, kind, order[0], origin))
+        edits.append((a, b, rep, kind, order[0] + prio * 100000, origin))
 
     kind = it["kind"]
     # DROP_ATTR
@@ -244,6 +256,11 @@ def assemble_item(d, info, src, srcfile_label, log):
         for f in it.get("fields", []):
             for a, b in f["attrs"]:
                 drop(a, b)
+    if kind == "fn":
+        for o in d.opts:
+            if o.startswith("attr("):
+                at = it["sig"][0] if it.get("vis") is None else it["vis"][0]
+                add(at, at, "#[" + o[5:-1] + "] ", "INSERT_SPEC")
     # VIS
     if not d.opt("keepvis") and kind in ("fn", "struct", "enum", "const", "static", "type", "trait"):
         novis = d.opt("novis")
@@ -273,7 +290,31 @@ def assemble_item(d, info, src, srcfile_label, log):
             raise Undecided(f"{d.path}: desugar(mut_self) but the receiver is not `mut self`")
         recv = ps[0]["span"]
         add(recv[0], recv[1], "mut self_: Self", "DESUGAR_MUT_SELF")
+    # generic parameters that are being substituted are removed from the parameter list
+    gp = it.get("gparams")
+    gp_removed = []
+    if gp and gp["params"] and not d.opt("nogenerics"):
+        ps = gp["params"]
+        keep = [p_ for p_ in ps if p_["name"] not in mono]
+        if len(keep) < len(ps):
+            if not keep:
+                add(gp["lt"], gp["gt"], "", "MONO")
+                gp_removed.append((gp["lt"], gp["gt"]))
+            else:
+                for i, p_ in enumerate(ps):
+                    if p_["name"] in mono:
+                        if i + 1 < len(ps):
+                            a_, b_ = p_["span"][0], ps[i + 1]["span"][0]
+                        else:
+                            # last parameter: also eat the comma before it
+                            a_, b_ = ps[i - 1]["span"][1], p_["span"][1]
+                            while gp_removed and gp_removed[-1][1] > a_:
+                                a_ = gp_removed[-1][1]
+                        add(a_, b_, "", "MONO")
+                        gp_removed.append((a_, b_))
     for name, a, b in it.get("idents", []):
+        if any(x <= a and b <= y for x, y in gp_removed):
+            continue
         if name == "self" and recv is not None:
             if not (recv[0] <= a < recv[1]):
                 add(a, b, "self_", "DESUGAR_MUT_SELF")
@@ -285,6 +326,17 @@ def assemble_item(d, info, src, srcfile_label, log):
             sig_a, sig_b = it["sig"]
             m = re.search(rb"\bfn\s+(" + re.escape(it["name"].encode()) + rb")\b", src[sig_a:sig_b])
             add(sig_a + m.start(1), sig_a + m.end(1), d.optarg("rename"), "RENAME")
+        for o in d.opts:
+            if o.startswith("bound("):
+                frm, to = [x.strip() for x in o[6:-1].split("=>")]
+                for key in ("generics", "where"):
+                    sp = it.get(key)
+                    if not sp:
+                        continue
+                    if (key == "generics" and d.opt("nogenerics")) or (key == "where" and d.opt("nowhere")):
+                        continue
+                    for m_ in re.finditer(re.escape(frm.encode()), src[sp[0]:sp[1]]):
+                        add(sp[0] + m_.start(), sp[0] + m_.end(), to, "BOUND")
         if d.opt("nogenerics") and it.get("generics"):
             a, b = it["generics"]
             add(a, b, "", "MONO")
@@ -322,13 +374,15 @@ def assemble_item(d, info, src, srcfile_label, log):
                 add(bo + 1, bo + 1, [Seg("\n", None)] + mk(), "INSERT_SPEC")
             elif skind == "exit":
                 add(bc, bc, [Seg("\n", None)] + mk(), "INSERT_SPEC")
-            elif skind in ("loop", "beforeloop", "afterloop"):
+            elif skind in ("loop", "beforeloop", "afterloop", "inloop"):
                 loops = it["loops"]
                 if arg >= len(loops):
                     raise Undecided(f"{d.path}: loop ordinal {arg} not found (function has {len(loops)} loops) -- anchor lost")
                 lp = loops[arg]
                 if skind == "loop":
                     add(lp["body_open"], lp["body_open"], [Seg("\n", None)] + mk(), "INSERT_SPEC")
+                elif skind == "inloop":
+                    add(lp["body_open"] + 1, lp["body_open"] + 1, [Seg("\n", None)] + mk(), "INSERT_SPEC")
                 elif skind == "beforeloop":
                     # before the statement containing the loop: if it is `let x = loop`, go to the let
                     pos = lp["start"]
@@ -356,7 +410,12 @@ def assemble_item(d, info, src, srcfile_label, log):
                     add(pos, pos, mk(), "INSERT_SPEC")
         # desugarings
         for o in d.opts:
-            if o == "desugar(break_value)":
+            if o.startswith("desugar(break_value"):
+                bv_types = {}
+                if ":" in o:
+                    for part in o[o.index(":") + 1:-1].split(","):
+                        k_, v_ = part.split("=")
+                        bv_types[k_.strip()] = v_.strip()
                 if not it["let_loops"]:
                     raise Undecided(f"{d.path}: desugar(break_value) but no `let x = loop` found")
                 for ll in it["let_loops"]:
@@ -367,16 +426,20 @@ def assemble_item(d, info, src, srcfile_label, log):
                     m = re.match(r"(mut\s+)?([A-Za-z_]\w*)\s*(:.*)?$", pat, re.S)
                     if not m:
                         raise Undecided(f"{d.path}: break_value desugaring supports only identifier patterns, got `{pat}`")
-                    var = m.group(2)
-                    # `let pat = ` -> `let pat; `
-                    add(pe, lps, "; ", "DESUGAR_BREAK_VALUE")
+                    var = m.group(2) + "__bv"
+                    # `let PAT = loop {..};` -> `let VAR__bv; loop {..}; let PAT = VAR__bv;`
+                    # (a fresh name, because a pattern inside the loop may shadow the original one)
+                    ty = bv_types.get(m.group(2)) or (m.group(3)[1:].strip() if m.group(3) else None)
+                    add(ls, lps, "let " + var + (": " + ty if ty else "") + "; ", "DESUGAR_BREAK_VALUE")
+                    add(le, le, " let " + pat + " = " + var + ";", "DESUGAR_BREAK_VALUE", prio=-1)
                     for br_ in ll["breaks"]:
                         if br_["value"] is None:
                             continue
                         bs, be = br_["span"]
                         vs, ve = br_["value"]
                         add(bs, vs, "{ " + var + " = ", "DESUGAR_BREAK_VALUE")
-                        add(ve, be, "", "DESUGAR_BREAK_VALUE") if ve != be else None
+                        if ve != be:
+                            add(ve, be, "", "DESUGAR_BREAK_VALUE")
                         add(be, be, "; break; }", "DESUGAR_BREAK_VALUE")
             elif o == "desugar(ref_pat)":
                 if not it["ref_pats"]:
@@ -397,6 +460,14 @@ def assemble_item(d, info, src, srcfile_label, log):
     elif d.sections:
         raise Undecided(f"{d.path}: sections on a non-fn item")
 
+    # an edit that lies inside a larger replaced span is subsumed by it (e.g. MONO inside a dropped where clause)
+    big = [(e[0], e[1], e[4]) for e in edits if e[1] > e[0] and e[3] in ("MONO", "DROP_ATTR", "NOBODY") and not e[2]]
+    def subsumed(e):
+        for a, b, o in big:
+            if o != e[4] and a <= e[0] and e[1] <= b and e[0] < b and not (e[0] == e[1] == a) and (e[1] - e[0]) < (b - a):
+                return True
+        return False
+    edits = [e for e in edits if not subsumed(e)]
     # sort and apply
     edits.sort(key=lambda e: (e[0], 0 if e[0] == e[1] else 1, e[4]))
     # check overlaps
@@ -448,6 +519,8 @@ def section_label(kind, arg):
         return f"loop{arg}"
     if kind == "beforeloop":
         return f"before-loop{arg}"
+    if kind == "inloop":
+        return f"in-loop{arg}"
     if kind == "afterloop":
         return f"after-loop{arg}"
     return f"{kind}:{arg[0]}#{arg[1]}"
@@ -609,20 +682,12 @@ def assemble(unit_dir, mutate=None, canary=False):
 # ------------------------------------------------------------------ running Verus
 
 VERIF_FAIL_PATTERNS = [
-    r"postcondition not satisfied",
-    r"precondition not satisfied",
-    r"invariant not satisfied",
-    r"decreases not satisfied",
-    r"assertion failed",
-    r"possible arithmetic underflow/overflow",
-    r"possible division by zero",
-    r"possible bit shift underflow/overflow",
-    r"recommendation not met",
-    r"index out of bounds",
-    r"unreachable code|unreachable\(\) might be reached|panic|might be reached",
-    r"loop invariant",
-    r"cannot show",
-    r"failed",  # generic: "assertion failed", "... failed"
+    r"^(postcondition|precondition|invariant|decreases|loop ensures|loop invariant)\b.*not satisfied",
+    r"^assertion failed",
+    r"^possible (arithmetic underflow/overflow|division by zero|bit shift underflow/overflow)",
+    r"^(unreachable|panic)",
+    r"^could not (prove|show) termination",
+    r"^recommendation not met",
 ]
 RLIMIT_PATTERNS = [r"[Rr]esource limit", r"rlimit", r"timed? ?out", r"unknown"]
 
